@@ -114,6 +114,10 @@ Check (C19_valid_unsized :
     forallb f_checked fs = true -> forallb f_nouninit fs = true -> forallb f_zeroable fs = true ->
     Forall (fun c => zst_status c = Some true) init -> zst_status last = Some b ->
     unsized_accepts true false true fs (init ++ [last]) = true).
+Check (C19_bound_style_irrelevant :
+  forall (m f k s : Z) (rest : list Z),
+    0 < k < 100 -> 0 <= s <= 2 ->
+    run_c19 (m :: f :: (k + 100 * s) :: rest) = run_c19 (m :: f :: k :: rest)).
 
 Print Assumptions C19_align1_sound.
 Print Assumptions C19_align1_sound_unrepaired_refuted.
@@ -138,3 +142,4 @@ Print Assumptions C19_valid_zero_copy_pod.
 Print Assumptions C19_valid_zero_copy_skip_packed.
 Print Assumptions C19_valid_zero_copy_enum.
 Print Assumptions C19_valid_unsized.
+Print Assumptions C19_bound_style_irrelevant.
